@@ -85,12 +85,13 @@ class Recorder:
         side = stream.name
         k = len(self.calls)
         self.calls.append((op, side))
-        info = dict(op=op, side=side, k=k, stream=stream, frame=None)
+        info = dict(op=op, side=side, k=k, stream=stream, frame=None, arg=arg)
         own_closed = stream.closed
-        peer_closed = stream.peer.closed
+        peer_closed = stream.peer.closed or getattr(stream, "gone", False)   # (`gone`: see props/c11.py LStream)
         if op == "write":
             # (a TCP-like stream accepts a write after the peer has closed)
-            will_fail = own_closed or (peer_closed and not getattr(stream, "accepts_write_after_peer_close", False))
+            will_fail = (own_closed or getattr(stream, "gone", False) or
+                         (stream.peer.closed and not getattr(stream, "accepts_write_after_peer_close", False)))
             buf = self.wbuf.setdefault(side, bytearray())
             buf += arg
             f = decode_frame(buf)
